@@ -105,3 +105,12 @@ Theorem c14_reassembly_timely_ticks : forall P ex s m ds,
       if (length (mine_raws s (strip evs)) =? length ds)%nat then [m] else [].
 Proof. exact reassembly_with_timely_ticks. Qed.
 Print Assumptions c14_reassembly_timely_ticks.
+
+(* A datagram for an ALREADY OPEN buffer whose index lies beyond that buffer's size (the size was
+   fixed by the first datagram of the message) is discarded whatever max index it announces:
+   nothing is handed up, slots and count stay as they are, only the deadline is re-armed. *)
+Theorem c14_open_buffer_bad_index_discarded : forall ex now (bs : buffers) d b,
+  lookup (d_seq d) bs = Some b -> N.of_nat (length (r_slots b)) <= d_idx d ->
+  receive_d ex now bs d = (insert (d_seq d) (mkR (r_cnt b) (r_slots b) (now + ex)) bs, None).
+Proof. exact open_buffer_bad_index_discarded. Qed.
+Print Assumptions c14_open_buffer_bad_index_discarded.
